@@ -18,26 +18,35 @@ fn hl(a: &L) -> String {
     hex::encode(crate::mon::limbs_to_be(a))
 }
 
-// ---- embeddings (library value -> 12 coefficients)
+// ---- embeddings (library value -> 12 coefficients). A stored coefficient that is not reduced (limbs >= p, e.g. p itself
+// for zero) is mapped to the out-of-range marker p, which no reference value equals: the library compares and tests
+// for zero on the stored limbs, so a non-canonical result is a wrong result.
+fn cf(a: &L) -> BigUint {
+    if r9::from_limbs(a) >= r9::params().p {
+        r9::params().p.clone()
+    } else {
+        r9::from_mont(a)
+    }
+}
 fn e_fp(a: &L) -> F12 {
     let mut v = r9::f12zero();
-    v[0] = r9::from_mont(a);
+    v[0] = cf(a);
     v
 }
 fn e_f2(a: &Fp2) -> F12 {
     let p = hk::fp2_parts(a);
     let mut v = r9::f12zero();
-    v[0] = r9::from_mont(&p[0]);
-    v[6] = r9::from_mont(&p[1]);
+    v[0] = cf(&p[0]);
+    v[6] = cf(&p[1]);
     v
 }
 fn e_f4(a: &Fp4) -> F12 {
     let p = hk::fp4_parts(a);
     let mut v = r9::f12zero();
-    v[0] = r9::from_mont(&p[0]);
-    v[6] = r9::from_mont(&p[1]);
-    v[3] = r9::from_mont(&p[2]);
-    v[9] = r9::from_mont(&p[3]);
+    v[0] = cf(&p[0]);
+    v[6] = cf(&p[1]);
+    v[3] = cf(&p[2]);
+    v[9] = cf(&p[3]);
     v
 }
 fn e_f12(a: &Fp12) -> F12 {
